@@ -204,17 +204,18 @@ Section Calm.
 
     Lemma calm_clean_item_cache : forall lay, calm J (clean_item_cache lay c).
     Proof.
-      intros. unfold clean_item_cache. apply calm_ls. intro qs. apply calm_stale_names.
+      intros. unfold clean_item_cache. apply calm_read. intros [[|v]|]; try apply calm_raise.
+      apply calm_ls. intro qs. apply calm_stale_names.
       intro l. apply calm_clean_list. intro x. apply nd_cache.
     Qed.
 
     Lemma calm_get_many : forall lay xs cleaned, calm J (get_many lay c xs cleaned).
     Proof.
       intros lay xs. induction xs as [|x xs IH]; intro cleaned; cbn [get_many]; [apply calm_ret|].
-      assert (Hmiss : forall v, calm J (seqs [Catch (store_cache lay c x v) (fun _ => Ret);
+      assert (Hmiss : forall v, calm J (seqs [Catch (store_cache lay c x v) os_ignored;
                                                (if cleaned then Ret else clean_item_cache lay c); get_many lay c xs true])).
       { intro v. apply calm_seqs. forall_split.
-        - apply calm_catch; [apply calm_store_cache | intro e; apply calm_ret].
+        - apply calm_catch; [apply calm_store_cache | intros [e| |]; cbn [os_ignored]; first [apply calm_ret | apply calm_raise]].
         - destruct cleaned; [apply calm_ret | apply calm_clean_item_cache].
         - apply IH. }
       apply calm_read. intros [[|v]|]; try apply IH.
@@ -223,15 +224,7 @@ Section Calm.
     Qed.
 
     Lemma calm_get_target : forall lay x, calm J (get_target lay c x).
-    Proof.
-      intros lay x. unfold get_target.
-      assert (Hmiss : forall v, calm J (Seq (Catch (store_cache lay c x v) (fun _ => Raise EVal)) (clean_item_cache lay c))).
-      { intro v. apply calm_seq; [|apply calm_clean_item_cache].
-        apply calm_catch; [apply calm_store_cache | intro e; apply calm_raise]. }
-      apply calm_read. intros [[|v]|]; try apply calm_ret.
-      apply calm_read. intros [[|cv]|]; try apply Hmiss.
-      destruct (N.eqb cv (cache_code v)); [apply calm_ret | apply Hmiss].
-    Qed.
+    Proof. intros lay x. unfold get_target. apply calm_get_many. Qed.
   End Coll.
 
 End Calm.
